@@ -114,7 +114,11 @@ def hostile_text(rng):
 
 
 def rand_duration(rng, hostile=True):
-    k = rng.randrange(12) if hostile else 0
+    k = rng.randrange(13) if hostile else 0
+    if k == 12:
+        # many components in one string: the duration list grows in steps of 16
+        m = rng.choice([15, 16, 17, 18, 31, 32, 33, 40, 70, 200])
+        return "".join("%d%s" % (rng.choice([1, 2, -1, 30]), rng.choice(["d", "w", "mo", "y", "h", "m", "s", "b"])) for _ in range(m))
     n = rng.choice([0, 1, -1, 7, 30, 365, 2 ** 31 - 1, 2 ** 31, -2 ** 31, 10 ** 12, rng.randrange(-10 ** 6, 10 ** 6)])
     u = rng.choice(["d", "w", "mo", "m", "y", "q", "b", "h", "s", "rs", "rm", "rh", "ns", "n", "D", "M", "'", '"', ""])
     if k < 6:
